@@ -73,6 +73,13 @@ class MapOf(Spec):
         self.cls, self.fields = cls, fields
 
 
+class SymDict(Spec):
+    """dict of concrete size whose keys are symbolic scalars: SymDict((key spec, value spec), ...)."""
+
+    def __init__(self, *entries):
+        self.entries = entries
+
+
 class Root(Spec):
     """Reference to the outermost object of the parameter being built (cyclic input structures, e.g. a ghost owner link)."""
 
